@@ -1,6 +1,8 @@
 #!/usr/bin/env python3
 """Run every seeded change against its property's check (quick tier) and record the verdicts.
-usage: tools/run_seeded.py [-j N] [ids...]   -> seeded/RESULTS.json + detected_by in each meta.json"""
+usage: tools/run_seeded.py [-j N] [ids...]   -> seeded/RESULTS.json + detected_by in each meta.json
+With SEEDED_RESULTS=<file> set (e.g. together with another VERIF_SEED) the verdicts go to that file only: a robustness
+run that tells which detections depend on the seed."""
 import concurrent.futures as cf, json, os, re, subprocess, sys
 HERE = os.path.dirname(os.path.dirname(os.path.abspath(__file__)))
 args = sys.argv[1:]
@@ -25,12 +27,14 @@ with cf.ThreadPoolExecutor(jobs) as ex:
     for sid, r in ex.map(run, ids):
         res[sid] = r
         print(sid, r["applies"], r["verdicts"], r["signatures"][:1], flush=True)
+        if os.environ.get("SEEDED_RESULTS"):
+            continue
         mp = os.path.join(HERE, "seeded", sid, "meta.json")
         meta = json.load(open(mp))
         det = [p for p, rc in r["verdicts"].items() if rc == "1"]
         meta["detected_by"] = {"checks": det, "tier": "quick", "signatures": r["signatures"], "patch_used": r["used_patch"]} if det else (meta.get("detected_by") if isinstance(meta.get("detected_by"), dict) and meta["detected_by"].get("note") else None)
         json.dump(meta, open(mp, "w"), indent=1)
-path = os.path.join(HERE, "seeded", "RESULTS.json")
+path = os.environ.get("SEEDED_RESULTS") or os.path.join(HERE, "seeded", "RESULTS.json")
 old = json.load(open(path)) if os.path.exists(path) else {}
 old.update(res)
 json.dump(old, open(path, "w"), indent=1, sort_keys=True)
